@@ -285,7 +285,7 @@ impl Subscription {
                                         .resolve(ri, &mut resolve_fut)
                                         .await;
 
-                                    match value {
+                                    let mut resp = match value {
                                         Ok(value) => {
                                             let mut map = IndexMap::new();
                                             map.insert(
@@ -295,7 +295,21 @@ impl Subscription {
                                             Response::new(Value::Object(map))
                                         }
                                         Err(err) => Response::from_errors(vec![err]),
-                                    }
+                                    };
+                                    // Errors captured at nullable positions while resolving
+                                    // this root field's event.
+                                    let mut errors = ctx_field.query_env.errors.lock().unwrap();
+                                    let (own, others): (Vec<_>, Vec<_>) = std::mem::take(&mut *errors)
+                                        .into_iter()
+                                        .partition(|err| match err.path.first() {
+                                            Some(crate::PathSegment::Field(name)) => {
+                                                name.as_str() == field_name.as_str()
+                                            }
+                                            _ => true,
+                                        });
+                                    *errors = others;
+                                    resp.errors.extend(own);
+                                    resp
                                 }
                             };
                             let resp = ctx_field
